@@ -18,6 +18,8 @@ def order_pool():
     P["neg_tup"] = X.unop("-", X.tup([("a", N(1))]))
     P["neg_set2"] = X.unop("-", X.set_([N(2)]))
     P["ar_hole2"] = X.arr([N(1), None, N(4)])
+    P["ar_h13"] = X.arr([N(1), None, N(2), N(3)])      # same items and extent, the hole elsewhere
+    P["ar_h23"] = X.arr([N(1), N(2), None, N(3)])
     P["ar_13"] = X.arr([N(1), N(3)])
     P["ar_hole3"] = X.arr([N(1), None, None, N(3)])
     P["str_c2"] = X.string("c", 2)
@@ -174,7 +176,7 @@ def main(tier, seed, replay=None):
         names = [n for n in rp["case"].get("values", []) if n in P] or names
     elif tier == "quick":
         # near-miss pairs are always in: they differ in exactly one respect (hole vs {}, key vs value order, offset only, ...)
-        pick = set(n for n in ("ar_hole", "ar_empty_mid", "ar_empty_mid2", "ar_hole2", "ar_123", "te_19", "te_23", "te_13", "ti_19", "ti_23",
+        pick = set(n for n in ("ar_hole", "ar_h13", "ar_h23", "ar_empty_mid", "ar_empty_mid2", "ar_hole2", "ar_123", "te_19", "te_23", "te_13", "ti_19", "ti_23",
                                "tc_1", "tc_2", "tb_1", "tb_2", "d19_23", "d12", "rj_ba", "r_ab", "rj_4", "r_4lit", "r_4nb", "rj_3c", "r_3clit", "str_sur1", "str_sur2", "str_fffd", "str_sur_h", "dm_12_13", "dm_12_20", "dm_x", "dm_y", "dm_z", "str_off", "str_a", "by_off", "by_12",
                                "empty", "true", "t0", "neg_set", "neg_tup") if n in P)
         # the Dict / Relation / UnionSet core whose comparisons the model decides (same keys and different values, key kinds,
